@@ -56,6 +56,7 @@ type Ctx struct {
 	rawOut      map[int]Sexp // unprojected model outputs
 	golden      int          // cases cross-checked in the kernel
 	Notes       []string
+	Boost       bool
 	Hist        map[string]map[string]int
 	replay      bool
 }
@@ -74,16 +75,24 @@ func NewCtx(prop, tier string, seed int64) *Ctx {
 		work = filepath.Join(verif, ".work", prop)
 	}
 	_ = os.MkdirAll(work, 0o755)
-	return &Ctx{
+	c := &Ctx{
 		Prop: prop, Tier: tier, Seed: seed,
 		Rng:   rand.New(rand.NewSource(seed)),
 		Verif: verif, Repo: repo, Work: work, Start: time.Now(),
 		ReplayID: -1,
 		Hist:     map[string]map[string]int{},
 	}
+	if u := strings.TrimSpace(os.Getenv("VERIF_UNREADABLE")); u != "" {
+		c.Boost = true
+		c.Notes = append(c.Notes, "the translator could not read part of the source in the idioms it knows; for the tables named here the tie is this correspondence check alone, run at the thorough scale: "+strings.ReplaceAll(u, "\n", "; "))
+	}
+	return c
 }
 
-func (c *Ctx) Thorough() bool { return c.Tier == "thorough" }
+// Thorough: the thorough tier, or a quick run that check.sh boosted to the
+// thorough scale because the translator could not read part of the source (the
+// tie for that part then rests on this correspondence check alone).
+func (c *Ctx) Thorough() bool { return c.Tier == "thorough" || c.Boost }
 
 // Scale returns q for the quick tier and t for the thorough tier.
 func (c *Ctx) Scale(q, t int) int {
@@ -268,6 +277,9 @@ func (c *Ctx) writeReplay(name string, r replayFile) string {
 	r.Property = c.Prop
 	r.Seed = c.Seed
 	r.Tier = c.Tier
+	if c.Boost {
+		r.Tier = "thorough" // the scale the cases were generated at
+	}
 	r.Replay = fmt.Sprintf("./check.sh %s replay %s", c.Prop, p)
 	b, _ := json.MarshalIndent(r, "", " ")
 	_ = os.WriteFile(p, b, 0o644)
